@@ -67,7 +67,37 @@ impl Twin {
         let actor = self.a.w.resolve(&step.actor);
         let user = step.op.is_engine_user_op();
         if user && !out_a.ok {
-            // rejected by the cw20 twin: not forwarded (the statement's proviso is undefined); keep the clocks aligned
+            // Rejected by the cw20 twin. Operations that never pull collateral from the caller (nothing to attach) are
+            // still forwarded with no funds: the native twin must reject them too. For the others the statement's
+            // proviso is undefined and the step is not forwarded.
+            let pulls_nothing = match &step.op {
+                Op::PayFunding { .. } | Op::Liquidate { .. } | Op::Withdraw { .. } => true,
+                Op::Close { vamm, .. } => pre_a.vamms.get(*vamm).map(|v| v.toll == 0 && v.spread == 0).unwrap_or(false),
+                _ => false,
+            };
+            if pulls_nothing && !self.diverged {
+                let snap_b = self.b.w.snapshot();
+                let model_b = self.b.model.clone();
+                let mut sb = step.clone();
+                sb.funds = 0;
+                self.b.apply(&sb);
+                let (out_b, _, _) = self.b.last.clone().unwrap();
+                let kind = step.op.kind();
+                self.a.ev.eval(true, &("rejected_by_cw20", kind, out_b.ok), || json!({"op": kind, "cw20_ok": false, "native_ok": out_b.ok}));
+                if out_b.ok {
+                    self.a.ev.violation("outcome_diverged", &format!("{},cw20_rejected_native_accepted", kind), json!({"cw20_error": crate::run::tail(&out_a.err, 160), "native_ok": true}));
+                    // undo the native twin so that the pair stays comparable
+                    self.b.w.restore(&snap_b);
+                    if let Some((dh, dt)) = step.clock {
+                        self.b.w.advance(dh, dt);
+                    }
+                    self.b.model = model_b;
+                    self.b.obs = pre_b;
+                    self.b.obs.height = self.b.w.height();
+                    self.b.obs.time = self.b.w.now();
+                }
+                return;
+            }
             if let Some((dh, dt)) = step.clock {
                 self.b.w.advance(dh, dt);
                 self.b.obs.height = self.b.w.height();
@@ -77,6 +107,28 @@ impl Twin {
             return;
         }
         let g: U = if user { ledger_a.iter().filter(|x| x.from == actor).map(|x| x.amount).sum() } else { 0 };
+        if user && g > self.b.obs.bal(&actor) {
+            // the native caller cannot attach what the cw20 twin pulled (cw20 pulls after paying out, native funds
+            // are attached up front): the statement's proviso cannot be met, so the step is not forwarded and the
+            // cw20 twin is rolled back
+            if let Some((snap, model)) = undo {
+                self.a.w.restore(&snap);
+                if let Some((dh, dt)) = step.clock {
+                    self.a.w.advance(dh, dt);
+                    self.b.w.advance(dh, dt);
+                    self.b.obs.height = self.b.w.height();
+                    self.b.obs.time = self.b.w.now();
+                }
+                self.a.model = model;
+                self.a.obs = pre_a;
+                self.a.obs.height = self.a.w.height();
+                self.a.obs.time = self.a.w.now();
+                self.a.ev.count("not_forwarded_native_caller_cannot_attach");
+            } else {
+                self.diverged = true;
+            }
+            return;
+        }
         let mut sb = step.clone();
         sb.funds = g;
         self.b.apply(&sb);
